@@ -64,10 +64,19 @@ func parseAction(label string) (op, error) {
 	return o, nil
 }
 
+// cleanLabel removes the tooltip copy that core.ParseDot's greedy pattern leaves
+// attached to the label of non-initial nodes (label",tooltip="label).
+func cleanLabel(label string) string {
+	if i := strings.Index(label, "\",tooltip=\""); i >= 0 {
+		return label[:i]
+	}
+	return label
+}
+
 // labelVar extracts the (possibly line-wrapped) value of variable name from a
 // dot node label "/\ a = ...\n/\ b = ...".
 func labelVar(label, name string) (string, bool) {
-	for _, conj := range strings.Split("\n"+label, "\n/\\ ") {
+	for _, conj := range strings.Split("\n"+cleanLabel(label), "\n/\\ ") {
 		if strings.HasPrefix(conj, name+" = ") {
 			return strings.Join(strings.Fields(strings.TrimPrefix(conj, name+" = ")), " "), true
 		}
@@ -126,6 +135,8 @@ type replayer struct {
 	ops     []op    // per edge
 	paths   [][]int // per node: edge indices of a shortest path
 	workers int
+	// fixOp completes an operation whose arguments are not all in the edge label.
+	fixOp func(e int, o op) op
 	// mkReq builds the driver request replaying path, then (on fresh objects) each of edges.
 	mkReq func(src int, path []op, edges []op) any
 	// check compares the projection observed after edge e with the model's target node.
@@ -162,6 +173,9 @@ func (r *replayer) run() error {
 	for i, e := range g.Edges {
 		if r.ops[i], err = parseAction(e.Action); err != nil {
 			return err
+		}
+		if r.fixOp != nil {
+			r.ops[i] = r.fixOp(i, r.ops[i])
 		}
 	}
 	var reach []bool
